@@ -364,6 +364,26 @@ Section Signal.
       (destruct (0 <? ns) eqn:E; [|apply Z.ltb_ge in E; lia]); [reflexivity|].
     rewrite Hs. destruct (rcd r (ns - 0)) as [v r1]. rewrite Hz, Z.add_0_r. apply IH. exact Hns.
   Qed.
+  (* MCDataSamplingBkgGenMethod.generate_events without pre-selection: all requests
+     on the handed service, in the order [poisson] random(n) [uniform(n)] *)
+  Lemma bkg_mc_spec poisson n_fixed scramble (r : rss rng) :
+    bkg_mc rng val draw val_int poisson n_fixed scramble r
+    = let n := if poisson then val_int (fst (rss_draw rng val draw r (RPoisson 0))) else n_fixed in
+      let r1 := if poisson then snd (rss_draw rng val draw r (RPoisson 0)) else r in
+      let r2 := snd (rcd r1 n) in
+      (n, if scramble then snd (rss_draw rng val draw r2 (RUniform n)) else r2).
+  Proof.
+    unfold bkg_mc. cbv zeta. destruct poisson.
+    - destruct (rss_draw rng val draw r (RPoisson 0)) as [v r1]. cbn [fst snd].
+      rewrite K_bkg_n. destruct (K_bkg_choice (val_int v) 0) as [Hc _]. rewrite Hc.
+      destruct (rcd r1 (val_int v)) as [u r2]. cbn [snd]. rewrite K_scr_size.
+      destruct scramble; [|reflexivity].
+      destruct (rss_draw rng val draw r2 (RUniform (val_int v))). reflexivity.
+    - rewrite K_bkg_n. destruct (K_bkg_choice n_fixed 0) as [Hc _]. rewrite Hc.
+      destruct (rcd r n_fixed) as [u r2]. cbn [snd]. rewrite K_scr_size.
+      destruct scramble; [|reflexivity].
+      destruct (rss_draw rng val draw r2 (RUniform n_fixed)). reflexivity.
+  Qed.
 End Signal.
 
 (* ------------------------------------------------------------------ *)
